@@ -179,6 +179,11 @@ theorem LkNetInv_step (x y : P2P × TLState) (h : LkNetInv x) (hs : LkStep x y) 
   | tick s s' t now reqs' hadv =>
     obtain ⟨_, gh', _, _, _, _, hl', hg', hn', _⟩ := lockstepTick_net s s' gh t now reqs' hl hg hn hadv
     exact ⟨⟨gh', hl', hg'⟩, hn'⟩
+  | localInput s t handle input =>
+    obtain ⟨l, hl'⟩ := P2P.addLocalInput_pending s handle input
+    show LkNetInv ((s.addLocalInput handle input).1, t)
+    rw [hl']
+    exact ⟨⟨gh, ⟨SessInv_pending s gh t [] l hl.sess, hl.idle, hl.full, hl.rows⟩, GlueInv_pending s gh l hg⟩, hn⟩
 
 theorem LkNetInv_run (x y : P2P × TLState) (h : LkNetInv x) (hr : LkStar x y) : LkNetInv y := by
   induction hr with
